@@ -28,6 +28,13 @@
          the grammar layer replays Quoted_String's pushes (Constant, to_string Id, parse_instr_eval,
          Arg_List, Fun_Call, Binary "+") segment by segment and only then looks at `qs_final`,
          which keeps the C++ order of errors.
+   * Proof rules.  LexProofs.v has the Hoare-style rules the lexer lemmas were proved with and that a grammar
+     proof can reuse: `post r Q` (no Crash / OutOfFuel, Q on a normal result), `ext s s'` (same buffer, cursor not
+     moved back, wf_pos, depth and user untouched), `fine m R` (m is safe from every wf state and R relates result,
+     start and end state), `use_fine` (sequencing), `loop_ok` (invariant + strict progress of continuing
+     iterations), `fine_with_depth`, and one `fine_<Scanner>` lemma per scanner (e.g. `fine_SkipComment`:
+     returns true => the cursor moved forward).  LexLitProofs.v: `lexer_safe`, `fine_Quoted_String`, the
+     Char_Parser facts.  LexNumProofs.v shows how to evaluate scanners on an explicit buffer (`bind_ok`, `run_skip_while`).
    * Tables.  The integer/float type ladders, keyword cases, reserved words and alphabets are
      *parameters* here (records `int_tables`, `kw_tables`, `alphabets`); LexRun/LexTheorems instantiate
      them with the tables regenerated from the source (Gen/G_IntLadder.v, Gen/G_Keywords.v). *)
